@@ -131,3 +131,32 @@ package arrayqueue
 //@     invariant forall j :: iterator.index <= j && j < old(iterator.index) && 0 <= j ==> !f(j, Seq(iterator.queue)[j])
 //@     decreases iterator.index + 1
 
+// ---- JSON (C11 round trip, C12 replace / sound / atomic) ----
+
+//@ func Queue.ToJSON
+//@   requires Inv(queue)
+//@   modifies nothing
+//@   ensures [C11 C17 C18] result1 == nil && fresh(arr(result0)) && jarr_kind(result0, elemof(queue.list.elements)) == 3 && jarr_len(result0, elemof(queue.list.elements)) == len(Seq(queue))
+//@     && (forall i :: 0 <= i && i < len(Seq(queue)) ==> jarr_at(result0, i, elemof(queue.list.elements)) == Seq(queue)[i])
+
+//@ func Queue.MarshalJSON
+//@   requires Inv(queue)
+//@   modifies nothing
+//@   ensures [C11 C17 C18] result1 == nil && fresh(arr(result0)) && jarr_kind(result0, elemof(queue.list.elements)) == 3 && jarr_len(result0, elemof(queue.list.elements)) == len(Seq(queue))
+//@     && (forall i :: 0 <= i && i < len(Seq(queue)) ==> jarr_at(result0, i, elemof(queue.list.elements)) == Seq(queue)[i])
+
+//@ func Queue.FromJSON
+//@   requires Inv(queue)
+//@   modifies queue.list.elements, elems(queue.list.elements)
+//@   ensures [C12 C17] Inv(queue) && (result == nil <==> jarr_kind(data, elemof(queue.list.elements)) >= 2)
+//@   ensures [C12] atomic: result != nil ==> Seq(queue) == old(Seq(queue))
+//@   ensures [C11 C12] loaded: jarr_kind(data, elemof(queue.list.elements)) == 3 ==> len(Seq(queue)) == jarr_len(data, elemof(queue.list.elements)) && (forall i :: 0 <= i && i < len(Seq(queue)) ==> Seq(queue)[i] == jarr_at(data, i, elemof(queue.list.elements)))
+//@   ensures [C12] null: jarr_kind(data, elemof(queue.list.elements)) == 2 ==> len(Seq(queue)) == 0
+
+//@ func Queue.UnmarshalJSON
+//@   requires Inv(queue)
+//@   modifies queue.list.elements, elems(queue.list.elements)
+//@   ensures [C12 C17] Inv(queue) && (result == nil <==> jarr_kind(bytes, elemof(queue.list.elements)) >= 2)
+//@   ensures [C12] atomic: result != nil ==> Seq(queue) == old(Seq(queue))
+//@   ensures [C11 C12] loaded: jarr_kind(bytes, elemof(queue.list.elements)) == 3 ==> len(Seq(queue)) == jarr_len(bytes, elemof(queue.list.elements)) && (forall i :: 0 <= i && i < len(Seq(queue)) ==> Seq(queue)[i] == jarr_at(bytes, i, elemof(queue.list.elements)))
+//@   ensures [C12] null: jarr_kind(bytes, elemof(queue.list.elements)) == 2 ==> len(Seq(queue)) == 0
